@@ -987,6 +987,12 @@ _CURRENT = []
 
 
 def run(sim):
+    # process-global mutable state (header-name cache) must not leak between runs in a warm worker
+    try:
+        from twisted.web import http_headers as _hh
+        _hh._nameEncoder._canonicalHeaderCache.clear()
+    except AttributeError:
+        pass
     h = Harness(sim)
     _CURRENT.append(h)
     h.build()
